@@ -3,11 +3,14 @@
 //! code generator run in process on arbitrary invocation texts.
 #![allow(dead_code)]
 mod dump;
+mod dump_syn;
 mod expand;
 mod parse;
 mod pattern;
+mod toks_cmds;
 
 use pattern::Pattern;
+use toks_cmds::{flat_tokens, parser_input, unhex};
 use std::io::{BufRead, Write};
 use std::panic::{catch_unwind, AssertUnwindSafe};
 use std::str::FromStr;
@@ -17,14 +20,6 @@ use std::str::FromStr;
 struct AssertStruct {
     value: syn::Expr,
     pattern: Pattern,
-}
-
-fn unhex(s: &str) -> String {
-    if s == "-" {
-        return String::new();
-    }
-    let b: Vec<u8> = (0..s.len() / 2).map(|i| u8::from_str_radix(&s[2 * i..2 * i + 2], 16).unwrap()).collect();
-    String::from_utf8(b).unwrap()
 }
 
 fn panic_msg(e: Box<dyn std::any::Any + Send>) -> String {
@@ -77,53 +72,6 @@ fn run(text: &str) -> String {
         if valid { "valid-block" } else { "INVALID-RUST" },
         dump::toks_str(&exp)
     )
-}
-
-/// ptoks <hex text> -> `(ts tt...)` TAB `(oracle (o ...)...)`: the input of the Lean parser model.
-fn parser_input(text: &str) -> String {
-    let text = &format!(" {}", text);
-    match proc_macro2::TokenStream::from_str(text) {
-        Err(_) => "lexerr".into(),
-        Ok(ts) => {
-            let mut o = Vec::new();
-            let mut path = Vec::new();
-            dump::oracle(&ts, &mut path, &mut o);
-            format!("(ts {})\t(oracle {})", dump::tts(&ts), o.join(" "))
-        }
-    }
-}
-
-/// toks <hex text> -> the flat token list: `hex(text):j` per token (j = 1 for a punct that is
-/// joint with the next token), group delimiters as tokens of their own.
-fn flat_tokens(text: &str) -> String {
-    fn go(ts: proc_macro2::TokenStream, out: &mut Vec<String>) {
-        use proc_macro2::{Delimiter, Spacing, TokenTree};
-        for tt in ts {
-            match tt {
-                TokenTree::Group(g) => {
-                    let (o, c) = match g.delimiter() {
-                        Delimiter::Parenthesis => ("(", ")"),
-                        Delimiter::Brace => ("{", "}"),
-                        Delimiter::Bracket => ("[", "]"),
-                        Delimiter::None => ("", ""),
-                    };
-                    out.push(format!("{}:0", dump::hex(o)));
-                    go(g.stream(), out);
-                    out.push(format!("{}:0", dump::hex(c)));
-                }
-                TokenTree::Punct(p) => out.push(format!("{}:{}", dump::hex(&p.as_char().to_string()), if p.spacing() == Spacing::Joint { 1 } else { 0 })),
-                other => out.push(format!("{}:0", dump::hex(&other.to_string()))),
-            }
-        }
-    }
-    match proc_macro2::TokenStream::from_str(text) {
-        Err(_) => "lexerr".into(),
-        Ok(ts) => {
-            let mut v = Vec::new();
-            go(ts, &mut v);
-            v.join(" ")
-        }
-    }
 }
 
 fn main() {
